@@ -3,6 +3,7 @@ package rig
 
 import (
 	"bytes"
+	"database/sql"
 	"fmt"
 	"io"
 	"net"
@@ -10,11 +11,13 @@ import (
 	"net/http/httptest"
 	"os"
 	"path/filepath"
+	"reflect"
 	"runtime/debug"
 	"strconv"
 	"strings"
 	"sync"
 	"time"
+	"unsafe"
 
 	"Havoc/cmd/server"
 	"Havoc/pkg/handlers"
@@ -28,13 +31,13 @@ import (
 type Operator struct{ Name, Password string }
 
 type Options struct {
-	Full        bool // run the real (*Teamserver).Start()
-	Service     bool // profile contains a Service block
-	ServicePass string
-	SendLogs    bool
-	TrustXFF    bool
-	Operators   []Operator
-	Dir         string // reuse this directory (restart on the same data); "" = fresh temp dir
+	Full         bool // run the real (*Teamserver).Start()
+	Service      bool // profile contains a Service block
+	ServicePass  string
+	SendLogs     bool
+	TrustXFF     bool
+	Operators    []Operator
+	Dir          string // reuse this directory (restart on the same data); "" = fresh temp dir
 	ExtraProfile string // extra top-level profile text (e.g. Listeners block)
 }
 
@@ -282,8 +285,25 @@ func (r *Rig) Close() {
 		// an assembled rig never bound its teamserver port
 		ReleasePort(r.Port)
 	}
+	closeDB(r.TS)
 	if r.fresh {
 		os.RemoveAll(r.Dir)
+	}
+}
+
+// closeDB closes the SQLite handle of a teamserver that is being discarded. The db package
+// has no Close, and a worker that builds thousands of teamservers runs out of file
+// descriptors otherwise; the handle is reached through its unexported field.
+func closeDB(ts *server.Teamserver) {
+	if ts == nil || ts.DB == nil {
+		return
+	}
+	f := reflect.ValueOf(ts.DB).Elem().FieldByName("db")
+	if !f.IsValid() || f.IsNil() {
+		return
+	}
+	if h, ok := reflect.NewAt(f.Type(), unsafe.Pointer(f.UnsafeAddr())).Elem().Interface().(*sql.DB); ok && h != nil {
+		h.Close()
 	}
 }
 
